@@ -109,7 +109,20 @@ fn res_name(r: &Result<RecursivePageTable<'_>, InvalidPageTable>) -> &'static st
     }
 }
 
+/// the reasons read the same when printed: the text for NotRecursive speaks of "recursive" and not of "active", and the
+/// other way round (a deliberately loose oracle over the wording)
+fn reasons_print_as_themselves(rep: &mut Report) {
+    rep.eval();
+    let (nr, na) = (format!("{}", InvalidPageTable::NotRecursive).to_lowercase(), format!("{}", InvalidPageTable::NotActive).to_lowercase());
+    let (dr, da) = (format!("{:?}", InvalidPageTable::NotRecursive), format!("{:?}", InvalidPageTable::NotActive));
+    if !(nr.contains("recursive") && !nr.contains("active") && na.contains("active") && !na.contains("recursive")) || dr != "NotRecursive" || da != "NotActive" {
+        rep.violation("InvalidPageTable|reason-printed-as-the-other-one", J::obj(vec![("NotRecursive", J::s(nr)), ("NotActive", J::s(na))]));
+    }
+    rep.class("constructor|Display-of-the-reasons");
+}
+
 fn constructor(rep: &mut Report, r: &mut Rng, n: u64) {
+    reasons_print_as_themselves(rep);
     const P: u64 = 1;
     const W: u64 = 2;
     // a tiny simulated memory: root + one other frame
